@@ -83,6 +83,8 @@ pub struct Instance {
     pub accept_few: bool,
     /// the async transport supports gathering writes (TcpStream does)
     pub vectored: bool,
+    /// the async transport's flush needs this many extra polls after a write (websocket, TLS)
+    pub slow_flush: u8,
     /// compare with the other implementation on histories both can execute
     pub differential: bool,
 }
@@ -114,6 +116,7 @@ impl Instance {
             isi_via_handshake: false,
             accept_few: false,
             vectored: false,
+            slow_flush: 0,
             differential: false,
         }
     }
